@@ -1183,6 +1183,7 @@ func runC17LuaBody(c *core.Ctx) {
 	runLuaSeq(c, luaProfile{name: "c17lcap", n: [2]int{300, 5000}, errRate: 4, withCap: true})
 	runLuaConc(c)
 	runLuaPool(c)
+	runLuaAfter(c, 500, 6000) // c17_after.go: the after-event half (Model.LuaAfter)
 	runF17a(c)
 	runF17b(c)
 	if brokerMutationVisible() {
